@@ -12,7 +12,8 @@ checks = []
 na = []
 for pid in ALL:
     p = os.path.join(V, "props", pid.lower() + ".py")
-    if not os.path.exists(p):
+    if not os.path.exists(p) or not os.path.exists(os.path.join(V, "coq", "theories", "Props", pid + ".v")) \
+            or not os.path.exists(os.path.join(V, "coq", "theories", "Extract", pid + ".v")):
         na.append({"property_id": pid, "reason": "check not built yet in this development (planned, see DESIGN.md section 5); not claimed until it runs"})
         continue
     m = importlib.import_module("props." + pid.lower())
